@@ -29,6 +29,10 @@ class PyRaise(Exception):
         self.exc = exc  # python exception class
 
 
+class Infeasible(Exception):
+    """the current path condition became unsatisfiable (after an earlier 'unknown' was over-approximated): drop the path"""
+
+
 class _Return(Exception):
     def __init__(self, v):
         self.v = v
@@ -73,10 +77,11 @@ def _tree(fn):
 
 
 class Interp:
-    def __init__(self, models, while_bound=10, solver_timeout_ms=60000):
+    def __init__(self, models, while_bound=10, solver_timeout_ms=3000):
         self.models = models
         self.while_bound = while_bound
         self.solver_timeout_ms = solver_timeout_ms
+        self.light_limit = None  # None: use the whole path condition for feasibility
         self.functions_seen = set()
 
     # -- path exploration -----------------------------------------------------------------------------------------
@@ -94,13 +99,29 @@ class Interp:
                 out = ("ret", run(self))
             except PyRaise as e:
                 out = ("raise", e.exc)
+            except Infeasible:
+                work.extend(self.pending)
+                continue
             yield list(self.pc), out
             work.extend(self.pending)
 
+    @staticmethod
+    def _size(e, limit):
+        n, stack = 0, [e]
+        while stack and n <= limit:
+            x = stack.pop()
+            n += 1
+            stack.extend(x.children())
+        return n
+
     def _check(self, *extra):
+        """branch feasibility on the LIGHT part of the path condition (small terms only): an over-approximation - it can
+        only add paths, whose full condition the final queries then find unsatisfiable - that keeps feasibility checks cheap
+        when the path condition carries large arithmetic terms"""
         s = z3.Solver()
         s.set("timeout", self.solver_timeout_ms)
-        s.add(*self.pc)
+        lim = self.light_limit
+        s.add(*[c for c in self.pc if lim is None or self._size(c, lim) <= lim])
         t = time.time()
         r = s.check(*extra)
         STATS["feasibility_checks"] += 1
@@ -125,14 +146,14 @@ class Interp:
                 choice = self.forced[i]
             else:
                 rt, rf = self._check(v), self._check(z3.Not(v))
-                if z3.unknown in (rt, rf):
-                    raise Unsupported("solver returned unknown on a branch condition")
-                can_t, can_f = rt == z3.sat, rf == z3.sat
+                # unknown (feasibility timeout): treat the branch as feasible - an over-approximation that only adds paths
+                # whose condition the final queries then find unsatisfiable
+                can_t, can_f = rt != z3.unsat, rf != z3.unsat
                 if can_t and can_f:
                     self.pending.append(self.taken + [False])
                     choice = True
                 elif not can_t and not can_f:
-                    raise Unsupported("infeasible path")
+                    raise Infeasible()
                 else:
                     choice = can_t
             self.taken.append(choice)
@@ -297,8 +318,12 @@ class Interp:
 
     def getattr_(self, base, attr):
         key = (getattr(base, "__name__", None) or type(base).__name__) + "." + attr
-        if isinstance(base, (types.ModuleType, type)) and key in self.models:
-            return self.models[key]
+        if isinstance(base, (types.ModuleType, type, types.SimpleNamespace)):
+            if key in self.models:
+                return self.models[key]
+            alt = "time." + attr  # a stubbed 'time' namespace (SimpleNamespace has no __name__)
+            if isinstance(base, types.SimpleNamespace) and alt in self.models:
+                return self.models[alt]
         if isinstance(base, Obj):
             if attr in base._attrs:
                 return base._attrs[attr]
